@@ -8,7 +8,8 @@
     Library behaviour enters as Section variables (oracles):
       hatom  DeepHash of a set member (only equality of hashes matters)
       udiff  '\n'.join(difflib.unified_diff(a.splitlines(), b.splitlines(), lineterm=''))
-      ops    difflib.SequenceMatcher(a, b).get_opcodes() for the lists at a path
+      ops    difflib.SequenceMatcher(a, b).get_opcodes() for the all-atom lists a, b compared at a path
+             (a function of the lists; the path argument lets the harness supply a table)
       skip   _skip_this on a level path (exclude_paths / exclude_regex_paths)
       excl   membership in exclude_paths (used by the deeper-threshold union)
     Definitions only. *)
@@ -25,7 +26,7 @@ Record cfg := mkCfg {
 Section Diff.
 Variable hatom : atom -> pystr.
 Variable udiff : pystr -> pystr -> pystr.
-Variable ops : path -> list opcode.
+Variable ops : path -> list value -> list value -> list opcode.
 Variable skip : path -> bool.
 Variable excl : path -> bool.
 Variable c : cfg.
@@ -112,7 +113,7 @@ Definition by_opcodes (os : list opcode) (xs ys : list value) (p1 p2 : path) : l
 (* the default-mode choice between the two passes; returns the entries and
    whether the opcodes are recorded in _iterable_opcodes *)
 Definition default_leaf_list (xs ys : list value) (p1 p2 : path) : list entry * bool :=
-  let pass1 := by_opcodes (ops p1) xs ys p1 p2 in
+  let pass1 := by_opcodes (ops p1 xs ys) xs ys p1 p2 in
   if Nat.ltb 1 (length pass1) then
     let pass2 := pairs_leaf xs ys 0 0 p1 p2 in
     if Nat.leb (length pass2) (length pass1) then (pass2, false) else (pass1, true)
